@@ -245,7 +245,7 @@ NATIVE_TWINS = {
     'C08': ('c08_minimax_model', None,
             '9 positions x depths 1..3 with a fresh context, 4 games x 8 plies at depth 3 with one reused context, and one context through 16 unrelated positions (values far apart in both directions, both sides to move) at depths 2 and 3: reported score == unpruned uncached reference minimax, returned move attains it'),
     'C10': ('c10_perft_model', None,
-            '4 positions x depths 0..3 x rayon pools {1,2,3,4,7,16} x fresh/reused generator: count_positions == reference count (20, 420, 9322, 206603 from the start position), board unchanged'),
+            '7 positions (incl. a stalemated root, a checkmated root, mate in one) x depths 0..3 x rayon pools {1,2,3,4,7,16} x fresh/reused generator: count_positions == reference count (20, 420, 9322, 206603 from the start position), board unchanged'),
     'C11': ('c11_attack_geometry', None,
             'EXHAUSTIVE for rook and bishop over every subset of the relevance mask on every square (102,400 + 5,248 cases); queen / knight / king x 64 squares x 24 pseudo-random blocker sets; pawns of both colours x 48 squares: the reported attack map equals the walked geometry (no wrap-around, rays stop at the first blocker)'),
     'C18': ('c18_score_model', None,
